@@ -7,6 +7,7 @@
     * `parseInlineG_eq_zero` — `max_nesting = 0` (which `ES.top_total` leaves out: `StepEP` speaks of steps
                              below the limit): no rule runs, `Inline.over_limit`;
     * `epc_init`           — the start position of the top frame (behind the leading blanks) is not escaped;
+    * `parseInlineG_eq_all` — the guard of the guarded parser never trips (guarded run = model run);
     * `parseInline_total`  — **`md.inline.parse` is total for EVERY `ChainCoherent` chain on EVERY content**.
 -/
 import MdIt.Lemmas.MemoSafeLamESTop
@@ -144,6 +145,21 @@ theorem epc_init (cfg : Cfg) (content : List Char) (mapping : Srcmap) :
   rw [← e] at this
   exact this
 
+/-- **the guarded inline parser IS the model inline parser** — the guard (a `skip_token` memo hit beyond
+    the current `pos_max`) never trips — for every `ChainCoherent` chain on every content -/
+theorem parseInlineG_eq_all (cfg : Cfg) (hc : ChainCoherent cfg = true)
+    (hone : cfg.chain.count .link ≤ 1 ∧ cfg.chain.count .image ≤ 1) {content : List Char}
+    {mapping : Srcmap} (hm : MapOK content mapping) :
+    parseInlineG cfg content mapping = parseInline cfg content mapping := by
+  by_cases hlev0 : 0 < cfg.maxNesting
+  · have hnc := CS.nocut_init content mapping
+    have H := nestHyps_all cfg content (IState.init content mapping).posMax hc hone hnc
+    exact parseInlineG_eq (B := BE cfg) (backOK_BE cfg) (coherent_hsz hc) hm
+      (BE.empty cfg content) hnc (endHyp_holds cfg (BE cfg) hnc) (endEP_holds cfg (BE cfg))
+      (stepEP_holds cfg hc) (epc_init cfg content mapping) hlev0 (marksHyp_BE cfg)
+      (fun f s hs => nested_tokEq H f s hs) (fun f => entryP_NF f)
+  · exact parseInlineG_eq_zero cfg hlev0 content mapping
+
 /-- **`md.inline.parse` is total for EVERY `ChainCoherent` chain — the stock CommonMark chain with
     strikethrough included — on EVERY content** (code spans with any backtick runs, escaped backticks
     anywhere), every `max_nesting`, every reference map, every `MapOK` table. -/
@@ -151,20 +167,13 @@ theorem parseInline_total (cfg : Cfg) (hc : ChainCoherent cfg = true)
     (hone : cfg.chain.count .link ≤ 1 ∧ cfg.chain.count .image ≤ 1) {content : List Char}
     {mapping : Srcmap} (hm : MapOK content mapping) :
     ∃ cs, parseInline cfg content mapping = .ok cs := by
-  by_cases hlev0 : 0 < cfg.maxNesting
-  · have hnc := CS.nocut_init content mapping
-    have H := nestHyps_all cfg content (IState.init content mapping).posMax hc hone hnc
-    exact parseInline_total_of_nested (B := BE cfg) (backOK_BE cfg) (coherent_hsz hc) hm
-      (BE.empty cfg content) hnc (endHyp_holds cfg (BE cfg) hnc) (endEP_holds cfg (BE cfg))
-      (stepEP_holds cfg hc) (epc_init cfg content mapping) hlev0 (marksHyp_BE cfg)
-      (fun f s hs => nested_tokEq H f s hs) (fun f => entryP_NF f)
-  · have heq := parseInlineG_eq_zero cfg hlev0 content mapping
-    have hnr := Inline.parseInlineG_noRust cfg (coherent_hsz hc) hm
-    cases h : parseInline cfg content mapping with
-    | ok cs => exact ⟨cs, rfl⟩
-    | error e =>
-      cases e with
-      | fuel => exact absurd h (parseInline_fuel cfg content mapping)
-      | rust p => exact absurd (heq.trans h) (hnr p)
+  have heq := parseInlineG_eq_all cfg hc hone hm
+  have hnr := Inline.parseInlineG_noRust cfg (coherent_hsz hc) hm
+  cases h : parseInline cfg content mapping with
+  | ok cs => exact ⟨cs, rfl⟩
+  | error e =>
+    cases e with
+    | fuel => exact absurd h (parseInline_fuel cfg content mapping)
+    | rust p => exact absurd (heq.trans h) (hnr p)
 
 end MdIt.Inline.ES
